@@ -343,7 +343,7 @@ func genJSONValue(rng *rand.Rand, depth int, sb *strings.Builder, ws func()) {
 	}
 }
 
-var strAtoms = []string{"a", "Z", "0", " ", `\"`, `\\`, `\/`, `\b`, `\f`, `\n`, `\r`, `\t`, `\u0000`, `é`, `😀`, `\ud800`, "é", "€", "😀", "/", "//", "#", "@a", "{", ":", ",", "]", "*/", "-", "."}
+var strAtoms = []string{"a", "Z", "0", " ", `\"`, `\\`, `\/`, `\b`, `\f`, `\n`, `\r`, `\t`, `\u0000`, "\\u00e9", "\\ud83d\\ude00", `\ud800`, "é", "€", "😀", "/", "//", "#", "@a", "{", ":", ",", "]", "*/", "-", "."}
 
 func genJSONString(rng *rand.Rand, sb *strings.Builder, prefix string) {
 	sb.WriteByte('"')
